@@ -10,7 +10,7 @@ from harness.C03 import real_encode, real_decode
 
 THEOREMS = ['C04_command_ids', 'C04_tlv_table', 'C04_tlv_int', 'C04_tlv_cstr', 'C04_tlv_ostr', 'C04_tlv_flag', 'C04_simple_layout',
             'C04_sm_layout', 'C04_text_decodes_under_data_coding', 'C04_smresp_decode', 'C04_bindresp_decode', 'C04_bind_decode',
-            'C04_udh_decode', 'C04_nonvacuous']
+            'C04_sm_decode', 'C04_tlv_loop', 'C04_udh_decode', 'C04_nonvacuous']
 IMPORTS = ['AV.Model.Base', 'AV.Model.Codec', 'AV.Model.Split', 'AV.Model.TimeFmt', 'AV.Model.Pdu']
 SAR = (0x020C, 0x020E, 0x020F)
 
